@@ -24,6 +24,12 @@ def viewR (f : α → β) (r : Py.SliceSt R × Option α) : Slice R × Option β
 
 /-! ### generation independent: sequencing -/
 
+/-- decide the next `if` of the goal (of the regenerated code or of the model, however its arithmetic test is spelled) from the
+hypotheses in context -/
+macro "src_if" : tactic => `(tactic| first
+  | (rw [if_pos]; (first | done | (rotate_left; omega)))
+  | (rw [if_neg]; (first | done | (rotate_left; omega))))
+
 /-- sequencing: `Py.bindS` of the regenerated code is `SOp.bind` of the model -/
 theorem viewR_bindS (f : α → β) (f' : γ → δ) (r : Py.SliceSt R × Option α) (k : Py.SliceSt R → α → Py.SliceSt R × Option γ)
     (m : SOp R β) (k' : β → SOp R δ) (s0 : Slice R)
@@ -235,10 +241,10 @@ theorem src_load_maybe_ref_eq (s : Py.SliceSt R) : viewR id (load_maybe_ref s) =
   refine viewR_bindS bitB id _ _ _ _ _ (src_load_bit_eq s) fun s1 v => ?_
   by_cases hv : v ≠ 0
   · have : bitB v = true := by simp [bitB, hv]
-    rw [if_pos hv, this, if_pos rfl]
+    src_if; rw [this, if_pos rfl]
     exact src_next_ref some s1
   · have : bitB v = false := by simp [bitB, hv]
-    rw [if_neg hv, this, if_neg (by simp)]
+    src_if; rw [this, if_neg (by simp)]
     rfl
 
 theorem src_preload_maybe_ref_eq (s : Py.SliceSt R) : viewR id (preload_maybe_ref s) = SOp.preloadMaybeRef (view s) := by
@@ -260,10 +266,10 @@ theorem src_load_var_uint_eq (k : Nat) (s : Py.SliceSt R) :
   by_cases h : len = 0
   · have h1 : ¬ len ≠ 0 := by omega
     have h2 : ((len : Nat) : Int) = 0 := by omega
-    rw [if_pos h1, if_pos h2]; rfl
+    rw [if_pos h2]; src_if; rfl
   · have h1 : ¬ ¬ len ≠ 0 := by omega
     have h2 : ¬ ((len : Nat) : Int) = 0 := by omega
-    rw [if_neg h1, if_neg h2, bindS_ret, Int.toNat_natCast]
+    rw [if_neg h2]; src_if; rw [bindS_ret, Int.toNat_natCast]
     exact src_load_uint_eq (len * 8) s1
 
 theorem src_load_var_int_eq (k : Nat) (s : Py.SliceSt R) : viewR id (load_var_int k s) = SOp.loadVarInt k (view s) := by
@@ -273,10 +279,10 @@ theorem src_load_var_int_eq (k : Nat) (s : Py.SliceSt R) : viewR id (load_var_in
   by_cases h : len = 0
   · have h1 : ¬ len ≠ 0 := by omega
     have h2 : ((len : Nat) : Int) = 0 := by omega
-    rw [if_pos h1, if_pos h2]; rfl
+    rw [if_pos h2]; src_if; rfl
   · have h1 : ¬ ¬ len ≠ 0 := by omega
     have h2 : ¬ ((len : Nat) : Int) = 0 := by omega
-    rw [if_neg h1, if_neg h2, bindS_ret, Int.toNat_natCast]
+    rw [if_neg h2]; src_if; rw [bindS_ret, Int.toNat_natCast]
     exact src_load_int_eq (len * 8) s1
 
 theorem src_load_coins_eq (s : Py.SliceSt R) :
@@ -301,10 +307,10 @@ theorem src_preload_var_uint_eq (k : Nat) (s : Py.SliceSt R) :
   by_cases h : len = 0
   · have h1 : ¬ len ≠ 0 := by omega
     have h2 : ((len : Nat) : Int) = 0 := by omega
-    rw [if_pos h1, if_pos h2]; rfl
+    rw [if_pos h2]; src_if; rfl
   · have h1 : ¬ ¬ len ≠ 0 := by omega
     have h2 : ¬ ((len : Nat) : Int) = 0 := by omega
-    rw [if_neg h1, if_neg h2, Int.toNat_natCast]
+    rw [if_neg h2]; src_if; rw [Int.toNat_natCast]
     exact src_window _ Py.ba2intU? SOp.ba2intU ba2intU_eq (k + len * 8) k s1
 
 theorem src_preload_var_int_eq (k : Nat) (s : Py.SliceSt R) :
@@ -315,10 +321,10 @@ theorem src_preload_var_int_eq (k : Nat) (s : Py.SliceSt R) :
   by_cases h : len = 0
   · have h1 : ¬ len ≠ 0 := by omega
     have h2 : ((len : Nat) : Int) = 0 := by omega
-    rw [if_pos h1, if_pos h2]; rfl
+    rw [if_pos h2]; src_if; rfl
   · have h1 : ¬ ¬ len ≠ 0 := by omega
     have h2 : ¬ ((len : Nat) : Int) = 0 := by omega
-    rw [if_neg h1, if_neg h2, Int.toNat_natCast]
+    rw [if_neg h2]; src_if; rw [Int.toNat_natCast]
     exact src_window id Py.ba2intS? SOp.ba2intS (fun bs => by rw [Option.map_id, id, ba2intS_eq]) (k + len * 8) k s1
 
 theorem src_preload_coins_eq (s : Py.SliceSt R) :
@@ -345,6 +351,7 @@ theorem src_preload_string_eq (n : Nat) (s : Py.SliceSt R) : viewR id (preload_s
   split <;> simp only [bindS_ret] <;> exact src_preload_bytes_eq _ s
 
 /-! ### addresses -/
+
 
 /-- what `load_address` returns, as the hand model's address value -/
 def addrM : Py.AddrR → Addr
@@ -377,23 +384,23 @@ theorem src_load_address_eq (s : Py.SliceSt R) : viewR addrM (load_address s) = 
   refine viewR_bindS (fun (v : Nat) => (v : Int)) _ _ _ _ _ _ (src_load_uint_eq 2 s) fun s1 tag => ?_
   by_cases h0 : tag = 0
   · have h0' : ((tag : Nat) : Int) = 0 := by omega
-    rw [if_pos h0, if_pos h0']; rfl
+    rw [if_pos h0']; src_if; rfl
   · have h0' : ¬ ((tag : Nat) : Int) = 0 := by omega
-    rw [if_neg h0, if_neg h0']
+    rw [if_neg h0']; src_if
     by_cases h1 : tag = 1
     · have h1' : ((tag : Nat) : Int) = 1 := by omega
-      rw [if_pos h1, if_pos h1']
+      rw [if_pos h1']; src_if
       refine viewR_bindS (fun (v : Nat) => (v : Int)) _ _ _ _ _ _ (src_load_uint_eq 9 s1) fun s2 len => ?_
       by_cases hl : len = 0
       · have hl' : ((len : Nat) : Int) = 0 := by omega
         have hn : ¬ len ≠ 0 := by omega
-        rw [if_neg hn, if_pos hl', hl]; rfl
+        rw [if_pos hl']; src_if; subst hl; rfl
       · have hl' : ¬ ((len : Nat) : Int) = 0 := by omega
-        rw [if_pos hl, if_neg hl', bindS_ret, Int.toNat_natCast]
+        rw [if_neg hl']; src_if; rw [bindS_ret, Int.toNat_natCast]
         refine viewR_bindS (fun (v : Nat) => (v : Int)) _ _ _ _ _ _ (src_load_uint_eq len s2) fun s3 v => ?_
         rfl
     · have h1' : ¬ ((tag : Nat) : Int) = 1 := by omega
-      rw [if_neg h1, if_neg h1']
+      rw [if_neg h1']; src_if
       refine viewR_bindS id _ _ _ _ _ _ (src_load_bool_eq s1) fun s2 any => ?_
       have h2' : (((tag : Nat) : Int) = 2) = (tag = 2) := by
         apply propext; constructor <;> intro h <;> omega
@@ -408,9 +415,9 @@ theorem src_load_address_eq (s : Py.SliceSt R) : viewR addrM (load_address s) = 
         refine viewR_bindS (fun (v : Nat) => (v : Int)) _ _ _ _ _ _ (src_load_uint_eq 5 s2) fun s3 depth => ?_
         by_cases hd : depth < 1
         · have hd' : ((depth : Nat) : Int) < 1 := by omega
-          rw [if_pos hd, if_pos hd', sop_fail_bind]; rfl
+          rw [if_pos hd']; src_if; rw [sop_fail_bind]; rfl
         · have hd' : ¬ ((depth : Nat) : Int) < 1 := by omega
-          rw [if_neg hd, if_neg hd', sop_bind_assoc, Int.toNat_natCast]
+          rw [if_neg hd']; src_if; rw [sop_bind_assoc, Int.toNat_natCast]
           refine viewR_bindS (fun (v : Nat) => (v : Int)) _ _ _ _ _ _ (src_load_uint_eq depth s3) fun s4 pfx => ?_
           rw [sop_pure_bind]
           split
@@ -502,11 +509,11 @@ theorem src_load_dict_eq (k : Nat) (kd vd : Unit) (s : Py.SliceSt R) : viewR id 
   refine viewR_bindS bitB id _ _ _ _ _ (src_load_bit_eq s) fun s1 v => ?_
   by_cases hv : v ≠ 0
   · have : bitB v = true := by simp [bitB, hv]
-    rw [if_pos hv, this, if_pos rfl]
+    src_if; rw [this, if_pos rfl]
     refine viewR_bindS id id _ _ _ _ _ (src_load_ref_eq s1) fun s2 r => ?_
     rfl
   · have : bitB v = false := by simp [bitB, hv]
-    rw [if_neg hv, this, if_neg (by simp)]
+    src_if; rw [this, if_neg (by simp)]
     rfl
 
 theorem src_preload_dict_eq (k : Nat) (kd vd : Unit) (s : Py.SliceSt R) : viewR id (preload_dict k kd vd s) = SOp.preloadDict (view s) := by
@@ -515,11 +522,11 @@ theorem src_preload_dict_eq (k : Nat) (kd vd : Unit) (s : Py.SliceSt R) : viewR 
   refine viewR_bindS bitB id _ _ _ _ _ (src_preload_bit_eq s) fun s1 v => ?_
   by_cases hv : v ≠ 0
   · have : bitB v = true := by simp [bitB, hv]
-    rw [if_pos hv, this, if_pos rfl]
+    src_if; rw [this, if_pos rfl]
     refine viewR_bindS id id _ _ _ _ _ (src_preload_ref_eq s1) fun s2 r => ?_
     rfl
   · have : bitB v = false := by simp [bitB, hv]
-    rw [if_neg hv, this, if_neg (by simp)]
+    src_if; rw [this, if_neg (by simp)]
     rfl
 
 /-! ### what the view does not show: the bit reads leave the reference list and the offset alone, the reference reads the bits -/
